@@ -342,6 +342,104 @@ theorem kwNot_eq (t : NodeId) (h : n.not = some t) :
 end kw
 
 
+
+
+/-! ## `if` / `then` / `else` -/
+
+section kwif
+variable (sub : NodeId → Json → Spec.Out) (n : Node) (j : Json) (c : NodeId)
+
+/-- the condition holds: the conjunction of `if` and `then` -/
+theorem kwIf_true (t : NodeId) (evc : Spec.Ev) (hc : n.if_ = some c) (ht : n.then_ = some t)
+    (h : sub c j = some (some evc)) :
+    Spec.kwIf sub n j = (sub t j).map fun rt => rt.map fun evt => evc.union evt := by
+  simp [Spec.kwIf, hc, ht, h]
+
+/-- the condition fails: `else` (nothing of `if` is kept) -/
+theorem kwIf_false (e : NodeId) (hc : n.if_ = some c) (he : n.else_ = some e) (h : sub c j = some none) :
+    Spec.kwIf sub n j = sub e j := by
+  simp only [Spec.kwIf, hc, he, h, Option.isSome_none, Bool.false_eq_true, if_false, Option.getD_none]
+  cases sub e j with
+  | none => rfl
+  | some r => cases r <;> simp [union_empty_left]
+
+/-- no `then`: a condition that holds accepts, keeping what the condition evaluated -/
+theorem kwIf_true_no_then (evc : Spec.Ev) (hc : n.if_ = some c) (ht : n.then_ = none) (h : sub c j = some (some evc)) :
+    Spec.kwIf sub n j = some (some evc) := by
+  simp [Spec.kwIf, hc, ht, h]
+
+/-- no `else`: a condition that fails accepts, evaluating nothing -/
+theorem kwIf_false_no_else (hc : n.if_ = some c) (he : n.else_ = none) (h : sub c j = some none) :
+    Spec.kwIf sub n j = some (some {}) := by
+  simp [Spec.kwIf, hc, he, h]
+
+/-- `if` alone never rejects -/
+theorem kwIf_alone (hc : n.if_ = some c) (ht : n.then_ = none) (he : n.else_ = none) :
+    Spec.kwIf sub n j = (sub c j).map fun rc => some (rc.getD {}) := by
+  simp only [Spec.kwIf, hc, ht, he]
+  cases sub c j with
+  | none => rfl
+  | some rc => cases rc <;> rfl
+
+/-- the verdict of `if c then t else e` is that of `(c ∧ t) ∨ (¬c ∧ e)` -/
+theorem kwIf_verdict (t e : NodeId) (rc rt re : Spec.R) (hc : n.if_ = some c) (ht : n.then_ = some t)
+    (he : n.else_ = some e) (h1 : sub c j = some rc) (h2 : sub t j = some rt) (h3 : sub e j = some re) :
+    (Spec.kwIf sub n j).map (·.isSome) = some ((rc.isSome && rt.isSome) || (!rc.isSome && re.isSome)) := by
+  cases rc with
+  | none => rw [kwIf_false sub n j c e hc he h1, h3]; simp
+  | some evc => rw [kwIf_true sub n j c t evc hc ht h1, h2]; cases rt <;> simp
+
+end kwif
+
+/-! ## schema objects with assertion keywords only -/
+
+/-- no keyword that applies a subschema -/
+structure NoApplicators (n : Node) : Prop where
+  ref : n.ref = ""
+  dynamicRef : n.dynamicRef = ""
+  allOf : n.allOf = none
+  anyOf : n.anyOf = none
+  oneOf : n.oneOf = none
+  not : n.not = none
+  if_ : n.if_ = none
+  prefixItems : n.prefixItems = none
+  items : n.items = none
+  itemsArray : n.itemsArray = none
+  contains : n.contains = none
+  properties : n.properties = none
+  patternProperties : n.patternProperties = none
+  additionalProperties : n.additionalProperties = none
+  propertyNames : n.propertyNames = none
+  dependencySchemas : n.dependencySchemas = none
+  dependentSchemas : n.dependentSchemas = none
+
+/-- a schema object with assertion keywords only: valid iff the assertions hold, nothing evaluated, no fuel needed
+    beyond the one unit, the scope is immaterial -/
+theorem specBody_assertion_node (env : Spec.Env) (rec : Spec.Rec) (scope : List NodeId) (s : NodeId) (j : Json) (n : Node)
+    (hn : NoApplicators n) (hu : NoUneval n) :
+    specBody env rec scope s j n = some (if assertsOf env n j = true then some {} else none) := by
+  unfold specBody
+  have h7 : (env.draft == .d7 && n.ref != "") = false := by simp [hn.ref]
+  rw [h7]
+  simp only [Bool.false_eq_true, if_false]
+  have e1 : Spec.kwUnevaluatedItems (rec (scope ++ [s])) n j = fun _ => some (some {}) :=
+    funext fun ev => kwUnevaluatedItems_absent _ n j ev hu.items
+  have e2 : Spec.kwUnevaluatedProps (rec (scope ++ [s])) n j = fun _ => some (some {}) :=
+    funext fun ev => kwUnevaluatedProps_absent _ n j ev hu.props
+  have hl : Spec.sequence (kwList env rec scope s j n) = some (List.replicate 12 (some {})) := by
+    simp [kwList, kwRef_absent _ _ n j s hn.ref, kwDynamicRef_absent _ _ n j _ s hn.dynamicRef,
+      kwAllOf_absent _ n j hn.allOf, kwAnyOf_absent _ n j hn.anyOf, kwOneOf_absent _ n j hn.oneOf,
+      kwNot_absent _ n j hn.not, kwIf_absent _ n j hn.if_, kwItems_absent _ _ n j hn.prefixItems hn.items hn.itemsArray,
+      kwContains_absent _ n j hn.contains,
+      kwProps_absent _ _ n j hn.properties hn.patternProperties hn.additionalProperties,
+      kwPropertyNames_absent _ n j hn.propertyNames,
+      kwDependentSchemas_absent _ _ n j hn.dependencySchemas hn.dependentSchemas, Spec.sequence, List.replicate]
+  rw [hl, e1, e2]
+  have hc : Spec.conj (List.replicate 12 (some ({} : Spec.Ev))) = some {} := by
+    simp [List.replicate, conj_cons, conj_nil]
+  simp only [specTail, hc]
+  cases assertsOf env n j <;> simp [conj_cons, conj_nil]
+
 /-! ## transfer to the evaluator -/
 
 /-- the stack extended by a schema object of the store still has resolution records -/
